@@ -550,4 +550,176 @@ theorem roundtrip_v1 (f : WFile) (h : FileWF2 f) (n : Nat) (hn : calcBankSize f 
   rw [key] at this
   exact this
 
+/-! ## a destination that is too small is reported -/
+
+/-- the stage does not fault, keeps `stored + remaining = destination length`, and when it reports success it has stored exactly `L` bytes in all -/
+def GoodL (n L : Nat) (r : Except Fault St) : Prop :=
+  ∃ st, r = .ok st ∧ st.w.out.length + st.w.rem = n ∧ (∀ w, st = .go w → w.out.length = L)
+
+theorem goodL_short (n L : Nat) (w : W) (h : w.out.length + w.rem = n) : GoodL n L (.ok (.short w)) :=
+  ⟨_, rfl, h, fun _ e => by cases e⟩
+theorem goodL_go (n L : Nat) (w : W) (h : w.out.length + w.rem = n) (hl : w.out.length = L) : GoodL n L (.ok (.go w)) :=
+  ⟨_, rfl, h, fun _ e => by cases e; exact hl⟩
+
+theorem goodL_andThen (n L1 L2 : Nat) (r : Except Fault St) (k : W → Except Fault St) (hr : GoodL n L1 r)
+    (hk : ∀ w, w.out.length + w.rem = n → w.out.length = L1 → GoodL n L2 (k w)) : GoodL n L2 (andThen r k) := by
+  obtain ⟨st, e, h, hl⟩ := hr
+  subst e
+  cases st with
+  | go w => exact hk w h (hl w rfl)
+  | short w => exact ⟨_, rfl, h, fun _ e => by cases e⟩
+
+theorem writeMetas_goodL (n : Nat) : ∀ (bs : List Bank) (w : W), (∀ b ∈ bs, b.name.length = 33) →
+    w.out.length + w.rem = n → GoodL n (w.out.length + 34 * bs.length) (writeMetas w bs)
+  | [], w, _, h => goodL_go n _ w h (by simp)
+  | b :: bs, w, hs, h => by
+      unfold writeMetas
+      by_cases h34 : w.rem < 34
+      · simp only [h34, if_true]; exact goodL_short n _ w h
+      · have hl : (b.name.take 32 ++ [b.lsb, b.msb]).length = 34 := by
+          simp [List.length_take, hs b (by simp)]
+        simp only [h34, if_false, put_ok _ _ _ (show (b.name.take 32 ++ [b.lsb, b.msb]).length ≤ w.rem by omega), bind, Except.bind]
+        have ih := writeMetas_goodL n bs { out := w.out ++ (b.name.take 32 ++ [b.lsb, b.msb]), rem := w.rem - (b.name.take 32 ++ [b.lsb, b.msb]).length }
+          (fun j hj => hs j (by simp [hj])) (by
+            show (w.out ++ (b.name.take 32 ++ [b.lsb, b.msb])).length + (w.rem - (b.name.take 32 ++ [b.lsb, b.msb]).length) = n
+            rw [List.length_append, hl]; omega)
+        have e : (w.out ++ (b.name.take 32 ++ [b.lsb, b.msb])).length + 34 * bs.length = w.out.length + 34 * (b :: bs).length := by
+          rw [List.length_append, hl, List.length_cons]; omega
+        simp only at ih
+        rw [e] at ih
+        exact ih
+
+/-- the number of bytes a successful save stores -/
+def imageLen (v nm np : Nat) : Nat :=
+  (if v > 1 then 13 else 11) + 5 + (if v ≥ 2 then 34 * nm + 34 * np else 0) +
+    (if v ≥ 2 then 69 else 65) * 128 * nm + (if v ≥ 2 then 69 else 65) * 128 * np
+
+/-- every run of the save stages that reports success has stored exactly `imageLen` bytes -/
+theorem saveStages_len (f : WFile) (v : Nat) (mel per : List Bank) (hm : ∀ b ∈ mel, b.Shape) (hp : ∀ b ∈ per, b.Shape)
+    (n : Nat) : GoodL n (imageLen v mel.length per.length) (saveStages f v mel per { out := [], rem := n }) := by
+  unfold saveStages
+  apply goodL_andThen n (if v > 1 then 13 else 11)
+  · -- magic and version
+    unfold writeHead
+    by_cases h11 : n < 11
+    · simp only [h11, if_true]; exact goodL_short n _ _ (by simp)
+    · have hml : (if v > 1 then Gen.wopnMagic2 else Gen.wopnMagic1).length = 11 := by
+        split <;> simp [magic_lengths]
+      simp only [h11, if_false, put_ok _ { out := [], rem := n } _ (show (if v > 1 then Gen.wopnMagic2 else Gen.wopnMagic1).length ≤ n by omega)]
+      by_cases hv : v > 1
+      · simp only [hv, if_true]
+        by_cases h2 : n - Gen.wopnMagic2.length < 2
+        · simp only [h2, if_true]
+          apply goodL_short; simp only [List.length_append, List.length_nil]; have := magic_lengths.2.1; omega
+        · simp only [h2, if_false]
+          rw [put_ok _ _ _ (by simp [putU16le]; omega)]
+          apply goodL_go <;> simp only [List.length_append, putU16le, List.length_cons, List.length_nil] <;>
+            (have := magic_lengths.2.1; omega)
+      · simp only [hv, if_false]
+        apply goodL_go <;> simp only [List.length_append, List.length_nil] <;> (have := magic_lengths.1; omega)
+  · intro w hw hl0
+    apply goodL_andThen n ((if v > 1 then 13 else 11) + 5)
+    · -- counts and chip flags
+      unfold writeCounts
+      by_cases h2 : w.rem < 2
+      · simp only [h2, if_true]; exact goodL_short n _ w hw
+      · simp only [h2, if_false]
+        rw [put_ok _ _ _ (by simp [putU16be]; omega)]
+        simp only [putU16be, List.length_cons, List.length_nil]
+        by_cases h3 : w.rem - 2 < 2
+        · simp only [h3, if_true]; apply goodL_short; simp only [List.length_append, List.length_cons, List.length_nil]; omega
+        · simp only [h3, if_false]
+          rw [put_ok _ _ _ (by simp; omega)]
+          simp only [List.length_cons, List.length_nil]
+          by_cases h4 : w.rem - 2 - 2 < 1
+          · simp only [h4, if_true]; apply goodL_short; simp only [List.length_append, List.length_cons, List.length_nil]; omega
+          · simp only [h4, if_false]
+            rw [put_ok _ _ _ (by simp; omega)]
+            apply goodL_go <;> simp only [List.length_append, List.length_cons, List.length_nil] <;> omega
+    · intro w hw hl1
+      apply goodL_andThen n ((if v > 1 then 13 else 11) + 5 + (if v ≥ 2 then 34 * mel.length + 34 * per.length else 0))
+      · -- bank meta-data
+        unfold writeMetasBoth
+        by_cases hv2 : v ≥ 2
+        · simp only [hv2, if_true]
+          have g1 := writeMetas_goodL n mel w (shape_names mel hm) hw
+          obtain ⟨st, e, hst, hlen⟩ := g1
+          rw [e]
+          cases st with
+          | short w' => exact ⟨_, rfl, hst, fun _ e => by cases e⟩
+          | go w' =>
+            have hw' := hlen w' rfl
+            have g2 := writeMetas_goodL n per w' (shape_names per hp) hst
+            have : w'.out.length + 34 * per.length = (if v > 1 then 13 else 11) + 5 + (34 * mel.length + 34 * per.length) := by omega
+            rw [this] at g2
+            exact g2
+        · simp only [hv2, if_false]
+          exact goodL_go n _ w hw (by omega)
+      · -- instrument sections
+        intro w hw hl2
+        unfold writeSections
+        by_cases c1 : w.rem < (if v ≥ 2 then 69 else 65) * 128 * mel.length
+        · simp only [c1, if_true]; exact goodL_short n _ w hw
+        · simp only [c1, if_false]
+          have ha1 := allInsts_length mel (shape_128 mel hm)
+          have hfit1 : (allInsts mel).length * (if v ≥ 2 then 69 else 65) ≤ w.rem := by
+            rw [ha1]
+            have : mel.length * 128 * (if v ≥ 2 then 69 else 65) = (if v ≥ 2 then 69 else 65) * 128 * mel.length := by ac_rfl
+            omega
+          have e1 := writeInsts_ok v (allInsts mel) w (shape_ops mel hm) hfit1
+          simp only [allInsts] at e1 hfit1 ha1
+          rw [e1]
+          simp only
+          have hl1' := flat_write_length v (allInsts mel) (shape_ops mel hm)
+          simp only [allInsts] at hl1'
+          have em : mel.length * 128 * (if v ≥ 2 then 69 else 65) = (if v ≥ 2 then 69 else 65) * 128 * mel.length := by ac_rfl
+          by_cases c2 : w.rem - (mel.flatMap (·.ins)).length * (if v ≥ 2 then 69 else 65) <
+              (if v ≥ 2 then 69 else 65) * 128 * per.length
+          · simp only [c2, if_true]
+            apply goodL_short; simp only [List.length_append, hl1']; omega
+          · simp only [c2, if_false]
+            have ha2 := allInsts_length per (shape_128 per hp)
+            have hfit2 : (allInsts per).length * (if v ≥ 2 then 69 else 65) ≤
+                w.rem - (mel.flatMap (·.ins)).length * (if v ≥ 2 then 69 else 65) := by
+              rw [ha2]
+              have : per.length * 128 * (if v ≥ 2 then 69 else 65) = (if v ≥ 2 then 69 else 65) * 128 * per.length := by ac_rfl
+              omega
+            have e2 := writeInsts_ok v (allInsts per)
+              { out := w.out ++ (mel.flatMap (·.ins)).flatMap (writeInst v true),
+                rem := w.rem - (mel.flatMap (·.ins)).length * (if v ≥ 2 then 69 else 65) } (shape_ops per hp) hfit2
+            simp only [allInsts] at e2 hfit2 ha2
+            rw [e2]
+            have hl2' := flat_write_length v (allInsts per) (shape_ops per hp)
+            simp only [allInsts] at hl2'
+            have ep : per.length * 128 * (if v ≥ 2 then 69 else 65) = (if v ≥ 2 then 69 else 65) * 128 * per.length := by ac_rfl
+            apply goodL_go
+            · simp only [List.length_append, hl1', hl2']; omega
+            · simp only [List.length_append, hl1', hl2', imageLen, ha1, ha2]; omega
+
+/-- **C15, too small a destination is reported**: whenever the destination is shorter than what a successful save stores, the saver
+    returns WOPN_ERR_UNEXPECTED_ENDING (and, by `save_within`, has stored nothing outside the destination) -/
+theorem save_too_small (f : WFile) (hs : f.Shape) (v : Nat) (hv : v = 1 ∨ v = 2) (n : Nat)
+    (hn : n < imageLen v f.melodic.length f.percussive.length) :
+    ∃ r, saveBank f n v false = .ok r ∧ r.code = Gen.wopnErrUnexpectedEnding ∧ r.out.length ≤ n := by
+  have hv0 : (if v = 0 then Gen.wopnLatestVersion else v) = v := by rcases hv with h | h <;> subst h <;> rfl
+  obtain ⟨st, e, hst, hlen⟩ := saveStages_len f v f.melodic f.percussive hs.mel_s hs.per_s n
+  unfold saveBank
+  simp only [hv0, Bool.false_eq_true, if_false, e]
+  cases st with
+  | go w =>
+    exfalso
+    have := hlen w rfl
+    simp only [St.w] at hst
+    omega
+  | short w => exact ⟨_, rfl, rfl, by simp only [St.w] at hst; show w.out.length ≤ n; omega⟩
+
+/-- `imageLen` is the length of the image (so "too small" means: smaller than the bytes `save_exact` stores) -/
+theorem imageLen_eq (f : WFile) (hs : f.Shape) (v : Nat) (hv : v = 1 ∨ v = 2) :
+    imageLen v f.melodic.length f.percussive.length = (image f v).length := by
+  rw [image_length f hs v hv]
+  unfold imageLen
+  have e1 : f.melodic.length * 128 * (if v ≥ 2 then 69 else 65) = (if v ≥ 2 then 69 else 65) * 128 * f.melodic.length := by ac_rfl
+  have e2 : f.percussive.length * 128 * (if v ≥ 2 then 69 else 65) = (if v ≥ 2 then 69 else 65) * 128 * f.percussive.length := by ac_rfl
+  omega
+
 end Opn.C15
